@@ -295,7 +295,11 @@ class Check(PropCheck):
             for e in lst:
                 if isinstance(e, Tag) and e.parentNode is not None:
                     return ('returned-attached', '%s returned <%s> whose parentNode is <%s>' % (what, e.tagName, e.parentNode.tagName))
-        # createElementFromHTML
+        # createElementFromHTML — directly after a call that was (rightly) rejected: the outcome depends on the fragment only
+        try:
+            cls.createElementFromHTML('<a>1</a><b>2</b>rejected')
+        except L.AHP.MultipleRootNodeException:
+            pass
         try:
             one = cls.createElementFromHTML(h)
             raised = False
@@ -324,6 +328,12 @@ class Check(PropCheck):
         expect_html = ''.join(b.outerHTML if isinstance(b, Tag) else b for b in expect)
         if wrapped:
             L.els.append(None)
+        # the same fragment text goes into another (throwaway) element first; it is looked at again at the end
+        other = Tag('section')
+        other.ownerDocument = t.ownerDocument       # same encoding / document as the target
+        other.appendInnerHTML(h)
+        other.ownerDocument = None
+        other_html, other_blocks = other.innerHTML, list(other.blocks)
         t.appendInnerHTML(h)
         L.discover(t)
         if t.innerHTML != before_html + expect_html:
@@ -346,4 +356,9 @@ class Check(PropCheck):
         f = C04.invariant_failure(L)
         if f:
             return ('invariant-after-appendInnerHTML', f[1])
+        if other.innerHTML != other_html or any(a is not b for a, b in zip(list(other.blocks), other_blocks)) \
+                or len(other.blocks) != len(other_blocks) or any(isinstance(b, Tag) and b.parentNode is not other for b in other.blocks) \
+                or any(isinstance(b, Tag) and any(b is x for x in t.blocks) for b in other.blocks):
+            return ('appendInnerHTML-shared', 'appending %r to the target changed / shares nodes with another element that received '
+                    'the same fragment before: %r -> %r' % (h, other_html, other.innerHTML))
         return None
